@@ -243,15 +243,23 @@ impl ActorCell {
 
         if let Some(r_name) = &name {
             crate::registry::register(r_name.clone(), cell.clone())?;
+            #[cfg(ractor_verif)]
+            crate::verif::point("new.named", cell.get_id().pid(), 0);
         }
 
         #[cfg(feature = "cluster")]
         if let Err(err) = crate::registry::pid_registry::register_pid(cell.get_id(), cell.clone()) {
+            #[cfg(ractor_verif)]
+            crate::verif::point("new.pidfail", cell.get_id().pid(), 0);
             if let Some(r_name) = &name {
                 crate::registry::unregister(r_name);
             }
+            #[cfg(ractor_verif)]
+            crate::verif::point("new.rollback", cell.get_id().pid(), 0);
             return Err(err.into());
         }
+        #[cfg(all(ractor_verif, feature = "cluster"))]
+        crate::verif::point("new.pid", cell.get_id().pid(), 0);
 
         Ok((
             cell,
